@@ -262,6 +262,10 @@ pub struct FieldSpec {
     /// a `#[serde(rename = "..")]` helper attribute next to the deserr ones: registered by the
     /// derive, and without any effect on the keys
     pub serde_rename: Option<String>,
+    /// with a conversion: the declared type of the field is `Option<Cv>` (the function returns
+    /// `Some(..)`), so the field is *spelled* like an optional one although its intermediate type
+    /// decides what the payload may hold
+    pub conv_opt_decl: bool,
 }
 
 impl FieldSpec {
@@ -278,6 +282,7 @@ impl FieldSpec {
             missing_foreign: false,
             err_b: false,
             serde_rename: None,
+            conv_opt_decl: false,
         }
     }
     pub fn has_default(&self) -> bool {
